@@ -281,7 +281,7 @@ def g_case(c):
 
 
 # ------------------------------------------------------------------ the property over the observables
-def o_atom(a, j):
+def o_atom(a, j, lookup=lookup):
     """documented meaning of one test (independent of the Coq model)"""
     cur = lookup(a["v"], j)
     if a["k"] == "eq":
@@ -311,11 +311,20 @@ def hides_live(j):
     return (not j["done"]) and j["failed"] and j["pid"] and j["alive"]
 
 
-def blame(e):
-    for a in atoms_of(e):
-        if a["k"] in ("in", "notin", "regex"):
-            return a["k"]
-    return "other"
+def blame(case, ans, k=None):
+    """kind of the first test of the filter that, on its own, raises / answers wrongly on job k"""
+    if case["expr"] is None:
+        return "other"
+    jobs = {(j["task"], j["hash"]): j for j in case["ws"]["jobs"]}
+    for a, r in zip(atoms_of(case["expr"]), ans.get("atoms") or []):
+        if k is None:
+            if r["build_exc"] is not None:
+                return a["k"]
+        else:
+            v = r["verdicts"].get(f"{k[0]}/{k[1]}")
+            if v is None or v != o_atom(a, jobs[k]):
+                return a["k"]
+    return "chain"
 
 
 def oracle(case, ans):
@@ -332,7 +341,7 @@ def oracle(case, ans):
                 out.append((f"C19:filter:{a['k']}-raises", f"a `{a['k']}` test raises {r['exc']}"))
             elif r["v"] != want:
                 atom_ok = False
-                if hides_live(j) and (a["v"] == "@state" or a.get("o", {}).get("var") == "@state"):
+                if hides_live(j) and r["v"] == o_atom(a, j, lambda v, jj: "ERROR" if v == "@state" else lookup(v, jj)):
                     out.append(("C19:state-hides-live-process",
                                 "@state reports ERROR for a relaunched job whose process is alive"))
                 else:
@@ -350,10 +359,7 @@ def oracle(case, ans):
         out.append((f"C19:{kind}-collateral", "paths outside the removed job directories changed"))
     if kind == "clean":
         if ans["exc"] is not None:
-            b = "other"
-            if case["expr"]:
-                b = "regex" if any(a["k"] == "regex" for a in atoms_of(case["expr"])) else blame(case["expr"])
-            out.append((f"C19:clean-raises:{b}", f"jobs clean raises {ans['exc']}"))
+            out.append((f"C19:clean-raises:{blame(case, ans)}", f"jobs clean raises {ans['exc']}"))
         want = set()
         for k, j in jobs.items():
             if not case["perform"]:
@@ -380,12 +386,12 @@ def oracle(case, ans):
                     out.append(("C19:clean-removes-unselected:experiment",
                                 "jobs clean --experiment removed a job that is not part of that experiment"))
                 else:
-                    out.append((f"C19:clean-removes-unselected:{blame(case['expr'])}",
+                    out.append((f"C19:clean-removes-unselected:{blame(case, ans, k)}",
                                 "jobs clean removed a job the filter does not select"))
         if ans["exc"] is None:
             for k in sorted(want - set(removed)):
-                b = blame(case["expr"]) if case["expr"] else "other"
-                out.append((f"C19:clean-misses-selected:{b}", "jobs clean --perform kept a finished job that is selected"))
+                out.append((f"C19:clean-misses-selected:{blame(case, ans, k)}",
+                            "jobs clean --perform kept a finished job that is selected"))
         return out
     # orphans
     if ans["exc"] is not None:
@@ -411,7 +417,7 @@ def payload_case(c):
         return dict(kind="filter", text=c["text"], atom_texts=c["atom_texts"], job=c["job"])
     if c["kind"] == "clean":
         return dict(kind="clean", ws=c["ws"], experiment=c["experiment"], filter=c["text"], perform=c["perform"],
-                    flags=c.get("flags", []))
+                    flags=c.get("flags", []), atom_texts=c.get("atom_texts"))
     return dict(kind="orphans", ws=c["ws"], clean=c["clean"], ignore_old=c["ignore_old"], show_all=c.get("show_all", False))
 
 
@@ -440,6 +446,7 @@ def with_texts(rng, c):
         c["atom_texts"] = [atom_text(rng, a) for a in atoms_of(c["expr"])]
     elif c["kind"] == "clean":
         c["text"] = None if c["expr"] is None else expr_text(rng, c["expr"])
+        c["atom_texts"] = None if c["expr"] is None else [atom_text(rng, a) for a in atoms_of(c["expr"])]
     return c
 
 
@@ -610,6 +617,9 @@ def run(c: Check):
             if nt:
                 c.nontrivial.add(json.dumps({k: v for k, v in case.items() if k not in ("ans", "text", "atom_texts")},
                                             sort_keys=True))
+        if e is not None and kind == "filter":
+            for at, r in zip(atoms_of(e), a["atoms"]):
+                c.count(f"test-answer:{at['k']}:{r['v']}")
         for key, what in oracle(case, a):
             c.count("oracle:" + key)
             if key in seen:
